@@ -60,11 +60,15 @@ structure St where
   doc : Option IndexFile := none          -- malformed: decodable document
   epacks : IndexFile := []
   labels : List String := []
-  verdict : Option Verdict := none
+  verdict : Option Verdict := none   -- first spec-false (ends the case)
+  differ : Option Verdict := none    -- first model/implementation difference (the case goes on: a spec-false later on wins)
   nloads : Nat := 0
   nlookupMulti : Nat := 0
 
-def St.fail (s : St) (v : Verdict) : St := if s.verdict.isSome then s else { s with verdict := some v }
+def St.fail (s : St) (v : Verdict) : St :=
+  match v with
+  | .differ _ _ => if s.differ.isSome then s else { s with differ := some v }
+  | _ => if s.verdict.isSome then s else { s with verdict := some v }
 def St.label (s : St) (l : String) : St := if s.labels.contains l then s else { s with labels := l :: s.labels }
 
 def St.good (s : St) : List (ID × IndexFile) := s.files.filterMap fun f => f.2.map fun c => (f.1, c)
@@ -161,8 +165,8 @@ def stepRec (s : St) (r : Array String) : St :=
   else if key == "orig" then
     let out := parsePBs r 1
     match s.idx.values with
-    | .ok l => if l.isPerm out then { s with orig := out } else s.fail (.differ "codec-values" s!"model={showPBs l} impl={showPBs out}")
-    | e => s.fail (.differ "codec-values" ("model=" ++ outTag e))
+    | .ok l => if l.isPerm out then { s with orig := out } else ({ s with orig := out }).fail (.differ "codec-values" s!"model={showPBs l} impl={showPBs out}")
+    | e => ({ s with orig := out }).fail (.differ "codec-values" ("model=" ++ outTag e))
   else if key == "encode" then
     if r.getD 1 "" == "ok" then s else s.fail (.specfalse "C08:codec:encode-failed" (r.getD 1 ""))
   else if key == "epack" then { s with epacks := s.epacks ++ [(parseID (r.getD 1 "-"), parseBlobs r 2)] }
@@ -213,9 +217,10 @@ where c_isCodec (s : St) : Bool := !s.labels.contains "malformed"
 def handle (c : Case) : Verdict :=
   let s0 : St := { labels := [c.stream] }
   let s := c.recs.foldl stepRec s0
-  match s.verdict with
-  | some v => v
-  | none =>
+  match s.verdict, s.differ with
+  | some v, _ => v
+  | none, some d => d
+  | none, none =>
     let nt := if c.stream == "hist" then s.nloads ≥ 1 && !s.good.isEmpty
               else if c.stream == "codec" then s.orig.length ≥ 1 else true
     let more := if c.stream == "hist" then
